@@ -318,7 +318,7 @@ def script_c16(case, naming, tier, seed):
 
 
 # ---------------------------------------------------------------------------
-@prop('C18', ['Ast', 'AstDeep', 'AstNNF'], name_classes=('casepair',), naming_matters=True, name_stride={'quick': 8, 'thorough': 2},
+@prop('C18', ['Ast', 'AstDeep', 'AstNNF', 'AstNeg'], name_classes=('casepair',), naming_matters=True, name_stride={'quick': 8, 'thorough': 2},
       assumptions=['equivalence is decided by complete truth tables over the atoms of the tree'])
 def script_c18(case, naming, tier, seed):
     from flamapy.core.models.ast import AST
